@@ -9,7 +9,7 @@ import numpy as np
 
 import core
 from core import Failure, f2b, b2f
-from props.c09 import config_for
+from props.c09 import config_for, HarnessError, stored_mask, empty_store, state_matrix, check_arr
 
 ID = "C18"
 LEAN_MODULE = "SnowProofs.Props.C18"
@@ -139,9 +139,11 @@ def _mk(case, store):
     from ethz_snow.operatingConditions import OperatingConditions
 
     oc = OperatingConditions(t_tot=T_TOT, cooling={"rate": 0.5, "start": 20, "end": -50})
-    return Snowflake(k={"int": 20, "ext": 20, "s0": 20}, N_vials=(case["nx"], case["ny"], case["nz"]), opcond=oc,
-                     dt=DT, seed=case["seed"], seed_v=case["seed"] + 17, storeStates=store,
-                     configPath=config_for(case["arr"]))
+    S = Snowflake(k={"int": 20, "ext": 20, "s0": 20}, N_vials=(case["nx"], case["ny"], case["nz"]), opcond=oc,
+                  dt=DT, seed=case["seed"], seed_v=case["seed"] + 17, storeStates=store,
+                  configPath=config_for(case["arr"]))
+    check_arr(S, case["arr"])
+    return S
 
 
 def _run_count(case):
@@ -151,11 +153,13 @@ def _run_count(case):
     try:
         with _recording(log):
             S = _mk(case, "random")
+    except HarnessError:
+        raise
     except Exception as e:
         return {"raise": core.exc_class(e), "stage": "init", "choices": log, "groups": {}}
-    mask = [int(i) for i in np.where(S._storageMask)[0]]
-    N = int(len(S._storageMask))
-    return {"raise": None, "choices": log, "mask": mask, "n": N, "emptyStore": bool(S._emptyStore),
+    mask = [int(i) for i in np.where(stored_mask(S))[0]]
+    N = int(len(stored_mask(S)))
+    return {"raise": None, "choices": log, "mask": mask, "n": N, "emptyStore": empty_store(S),
             "count": len(mask), "countonly": True, "groups": {g: list(range(N)) for g in NAMES}}
 
 
@@ -167,24 +171,30 @@ def run_impl(case):
     try:
         A = _mk(case, "all")
         obs["groups"] = {g: [int(i) for i in np.where(A.getVialGroup(g))[0]] for g in NAMES}
+    except HarnessError:
+        raise
     except Exception as e:
         return {"raise": core.exc_class(e), "stage": "run", "choices": log}
     try:
         with _recording(log):
             S = _mk(case, to_py(case["spec"]))
+    except HarnessError:
+        raise
     except Exception as e:
         return {"raise": core.exc_class(e), "stage": "init", "choices": log, "groups": obs["groups"]}
     obs["choices"] = log
-    mask = [int(i) for i in np.where(S._storageMask)[0]]
+    mask = [int(i) for i in np.where(stored_mask(S))[0]]
     obs["mask"] = mask
-    obs["n"] = int(len(S._storageMask))
-    obs["emptyStore"] = bool(S._emptyStore)
+    obs["n"] = int(len(stored_mask(S)))
+    obs["emptyStore"] = empty_store(S)
     try:
         S.run()
         A.run()
+    except HarnessError:
+        raise
     except Exception as e:
         return {"raise": core.exc_class(e), "stage": "run", "choices": log}
-    X, XA = S._X, A._X
+    X, XA = state_matrix(S), state_matrix(A)
     N = obs["n"]
     n = len(mask)
     obs["xshape"] = [int(X.shape[0]), int(X.shape[1])]
@@ -201,7 +211,8 @@ def run_impl(case):
     # the same object after re-applying its seed (what Snowfall does before every run)
     S.seed = case["seed"]
     S.run()
-    obs["subset_equal_reseed"] = bool(S._X.shape == want.shape and np.array_equal(S._X, want, equal_nan=True))
+    X2 = state_matrix(S)
+    obs["subset_equal_reseed"] = bool(X2.shape == want.shape and np.array_equal(X2, want, equal_nan=True))
     # two columns of the full state for the model's masked write
     nt = XA.shape[1]
     sig_any = np.where(np.any(A.X_sigma > 0, axis=0))[0]
@@ -291,39 +302,54 @@ def spec_class(case):
     return sp["kind"]
 
 
-def _check_string(s, impl_mask, groups_of, choices, N):
-    """returns (expect_raise | None, list of (clause, detail)) for one accepted request string"""
-    probs = []
+def string_opinion(s, groups_of, N):
+    """what the property says about ONE request string on this batch:
+    verdict True = must be rejected, False = must be accepted, None = no opinion (ambiguous wording);
+    plus the group G it draws from, the mode, and the admissible number [cmin, cmax] of recorded vials"""
     groups, mode, nums = parse(s)
     if not groups and not mode:
-        return True, probs
+        return dict(verdict=True, why="no group word, no random/uniform")
     if mode and len(nums) > 1:
-        return True, probs
+        return dict(verdict=True, why="more than one number")
     if len(groups) > 1:
-        return None, probs  # ambiguous: only the model/implementation comparison applies
-    G = groups_of[groups[0]] if groups else list(range(N))
-    if impl_mask is None:
-        return None, probs
-    m = impl_mask
+        return dict(verdict=None, why="names several groups")
+    G = list(groups_of[groups[0]]) if groups else list(range(N))
     if mode is None:
+        return dict(verdict=False, G=G, mode=None, cmin=len(G), cmax=len(G))
+    if nums:
+        cmin = cmax = nums[0]
+    else:
+        # default "10 %": int(ceil(0.1 * N)) in doubles is ceil(N/10) or one more
+        cmin, cmax = -(-N // 10), -(-N // 10) + 1
+    if mode == "random":
+        verdict = True if cmin > len(G) else False if cmax <= len(G) else None
+        return dict(verdict=verdict, G=G, mode=mode, cmin=cmin, cmax=cmax, why="more vials asked than the group has")
+    if nums and nums[0] == 0:
+        return dict(verdict=True, why="uniform with zero vials")
+    if not G:
+        return dict(verdict=None, G=G, mode=mode, cmin=0, cmax=0, why="uniform over an empty group")
+    return dict(verdict=False, G=G, mode=mode, cmin=1, cmax=cmax)
+
+
+def _mask_problems(s, op, m):
+    """clauses an ACCEPTED single request string must satisfy (never more than asked, never outside the group)"""
+    probs = []
+    if op.get("G") is None:
+        return probs
+    G = op["G"]
+    if op["mode"] is None:
         if m != G:
             probs.append(("group_exact", f"request {s!r} records {m}, the group is {G}"))
-        return False, probs
+        return probs
     if not set(m) <= set(G):
-        probs.append((f"{mode}_subset", f"request {s!r} records {sorted(set(m) - set(G))} outside the group {G}"))
-    if nums:
-        c = nums[0]
-        if mode == "random":
-            if c > len(G):
-                return True, probs
-            if len(m) != c:
-                probs.append(("random_exact", f"request {s!r} records {len(m)} vials, asked {c}"))
-        else:
-            if c == 0:
-                return True, probs
-            if len(G) and (len(m) > c or len(m) == 0):
-                probs.append(("uniform_le", f"request {s!r} records {len(m)} vials, asked at most {c} of {len(G)}"))
-    return None, probs
+        probs.append((f"{op['mode']}_subset", f"request {s!r} records {sorted(set(m) - set(G))} outside the group {G}"))
+    if op["mode"] == "random" and not (op["cmin"] <= len(m) <= op["cmax"]):
+        probs.append(("random_exact", f"request {s!r} records {len(m)} vials, asked {op['cmin']}..{op['cmax']}"))
+    if op["mode"] == "uniform" and G and not (1 <= len(m) <= op["cmax"]):
+        probs.append(("uniform_le", f"request {s!r} records {len(m)} vials, asked at most {op['cmax']} of {len(G)}"))
+    if op["mode"] == "uniform" and not G and m:
+        probs.append(("uniform_subset", f"request {s!r} records {m} from an empty group"))
+    return probs
 
 
 def predicates(case, impl):
@@ -379,25 +405,40 @@ def predicates(case, impl):
         if not raised and (impl["mask"] or impl["xshape"][0] != 0):
             out.append(Failure(clause="none_empty", key=f"none_empty|{site}|", detail=f"{where}: records {impl['mask']}"))
     elif sp["kind"] == "str":
-        must_raise, probs = _check_string(sp["str"], None if raised else impl["mask"], impl["groups"],
-                                          impl.get("choices", []), N)
-        for cl, d in probs:
-            out.append(Failure(clause=cl, key=f"{cl}|{site}|{sc}", detail=f"{where}: {d}"))
-    elif sp["kind"] == "strs" and not raised:
-        # every recorded vial belongs to a group that some request names
-        union = set()
-        amb = False
-        for s in sp["strs"]:
-            groups, mode, nums = parse(s)
-            if len(groups) > 1:
-                amb = True
-            for g in (groups or ["all"]):
-                union |= set(impl["groups"][g])
-        if not amb and not set(impl["mask"]) <= union:
-            out.append(Failure(clause="strings_union", key=f"strings_union|{site}|{sc}",
-                               detail=f"{where}: records {sorted(set(impl['mask']) - union)} outside the named groups"))
-    elif sp["kind"] == "strs" and raised:
-        pass
+        op = string_opinion(sp["str"], impl["groups"], N)
+        must_raise = op["verdict"]
+        if not raised:
+            probs = _mask_problems(sp["str"], op, impl["mask"])
+            if op.get("mode") == "random" and impl.get("choices"):
+                if sorted(impl["choices"][0]["out"]) != impl["mask"]:
+                    probs.append(("random_exact", f"records {impl['mask']}, the generator chose {impl['choices'][0]['out']}"))
+            for cl, d in probs:
+                out.append(Failure(clause=cl, key=f"{cl}|{site}|{sc}", detail=f"{where}: {d}"))
+    elif sp["kind"] == "strs":
+        ops = [string_opinion(x, impl["groups"], N) for x in sp["strs"]]
+        verdicts = [o["verdict"] for o in ops]
+        must_raise = True if any(v is True for v in verdicts) else False if all(v is False for v in verdicts) else None
+        if not raised and all(o.get("G") is not None for o in ops):
+            # the union: nothing outside the named groups, every plainly named group completely, every drawn vial,
+            # and never more vials than the requests ask for together
+            m = set(impl["mask"])
+            union = set().union(*[set(o["G"]) for o in ops]) if ops else set()
+            need = set().union(*[set(o["G"]) for o in ops if o["mode"] is None]) if ops else set()
+            chosen = iter(impl.get("choices", []))
+            for x, o in zip(sp["strs"], ops):
+                if o["mode"] == "random":
+                    c = next(chosen, None)
+                    if c is not None:
+                        need |= set(c["out"])
+                        if not set(c["out"]) <= set(o["G"]) or not (o["cmin"] <= len(c["out"]) <= o["cmax"]):
+                            out.append(Failure(clause="random_exact", key=f"random_exact|{site}|{sc}",
+                                               detail=f"{where}: entry {x!r} drew {c['out']} (asked {o['cmin']}..{o['cmax']} "
+                                                      f"from {o['G']})"))
+            cap = sum(o["cmax"] for o in ops)
+            if not m <= union or not need <= m or len(m) > cap:
+                out.append(Failure(clause="strings_union", key=f"strings_union|{site}|{sc}",
+                                   detail=f"{where}: records {sorted(m)}; named groups {sorted(union)}; must contain "
+                                          f"{sorted(need)}; at most {cap} vials asked"))
     if must_raise is True and not raised:
         out.append(Failure(clause="reject_meaningless", key=f"reject_meaningless|{site}|{sc}",
                            detail=f"{where}: accepted (records {impl.get('mask')})"))
